@@ -252,8 +252,8 @@ func C11String(t *C11Type, v *C11Val) string {
 	return "?"
 }
 
-// C11CompactBig is the canonical compact encoding of a non-negative integer.
-func C11CompactBig(n *big.Int) []byte {
+// C11EncodeCompactBig is the canonical compact encoding of a non-negative integer.
+func C11EncodeCompactBig(n *big.Int) []byte {
 	if n.Sign() < 0 {
 		panic("refscale: negative compact")
 	}
@@ -295,7 +295,7 @@ func c11enc(out *[]byte, t *C11Type, v *C11Val) {
 	}
 	switch t.Kind {
 	case C11Compact, C11CompactBig:
-		*out = append(*out, C11CompactBig(v.N)...)
+		*out = append(*out, C11EncodeCompactBig(v.N)...)
 	case C11Bool:
 		if v.T {
 			*out = append(*out, 1)
